@@ -192,8 +192,8 @@ def run(project, chk):
             if isinstance(n, ast.Attribute) and isinstance(n.ctx, ast.Store) and n.attr == "_format":
                 par = next((p for p in own_nodes(f2.node) if isinstance(p, ast.Assign) and n in p.targets), None)
                 val = par.value if par is not None else None
-                sc2 = Scope(project, f2)
-                ok = (isinstance(val, ast.Constant) and q == "Color.__init__") or (isinstance(val, ast.Call) and sc2.resolve_call(val) == f"{PAR}.detect_color_format" and val.args and norm_text(val.args[0]) == "self.original" and q == "Color._parse")
+                vo = Origins(project, f2).at(val) if val is not None else None
+                ok = (isinstance(val, ast.Constant) and q == "Color.__init__") or (q == "Color._parse" and vo is not None and vo[0] == "call" and vo[1] == f"{PAR}.detect_color_format" and vo[2][:1] == (("attr", ("param", "self"), "original"),))
                 chk.check(ok, "O2", f2.short, norm_text(par if par is not None else n), project.loc(m, n), "_format is the detected format of the constructor's input (or the initial placeholder)", how="store census of _format",
                           message="_format is written from something other than detect_color_format(self.original)")
 
